@@ -7,24 +7,30 @@ perception works component by component, hence `decompose S (A ⊔ B)` is additi
 numbered as RDKit numbers a mixture (`C04_decompose_mixture`, via C03).
 Oracle (relational): implementation on 'A.B' vs implementation on A and on B.
 """
-import itertools
+import itertools, collections
 from rdkit import Chem
-from . import common, lib_scheme as S, lib_molgen as G
+from . import common, lib_scheme as S, lib_molgen as G, lib_pipeline as P
 
-PROPS = ['PGA.Props.C04']
+PROPS = ['PGA.Props.C04', 'PGA.Props.Pipeline']
 GEN = ['Chars', 'MolQuery']
 OBLIGATIONS = ['PGA.Scheme.' + t for t in [
     'C04_cnt_union', 'C04_centres_union', 'C04_groupCount_union', 'C04_distinctSets_union',
     'C04_remap_additive', 'C04_descriptors_union']] + ['PGA.C04.' + t for t in [
-    'C04_load_connected', 'C04_embeds_union', 'C04_aromatize_union', 'C04_decompose_union', 'C04_decompose_mixture']]
+    'C04_load_connected', 'C04_embeds_union', 'C04_aromatize_union', 'C04_decompose_union', 'C04_decompose_mixture']] + [
+    'PGA.Pipeline.' + t for t in P.OBLIGATIONS_C04]
 RULE = ('cases = (scheme, A, B[, C]): all ordered pairs (incl. self-pairs) from a pool of fixed and grown molecules per scheme, '
         'some triples, pairs with an out-of-vocabulary component (failure propagation), for the nine shipped schemes. '
-        'distinct = distinct (scheme, A, B); non-trivial = both components have >= 2 heavy atoms or one fails.')
+        'distinct = distinct (scheme, A, B); non-trivial = both components have >= 2 heavy atoms or one fails. '
+        'Pipeline step (C04 ∘ C01/C20/C07): for a bounded number of these pairs per library the whole call chain '
+        'lib.Estimate(lib.GetDescriptors(x), "thermochem") is run on A, B and A.B at three temperatures (reference temperature, a table knot, '
+        'a random one) — on the shipped libraries and on one variant per library (a descriptor cut from the uncertainty basis, two '
+        'descriptors given disjoint ranges) that reaches the ValueError / AssertionError stages.')
 ASSUMPTIONS = ['A-graph for mixtures: RDKit\'s explicit-H graph of "A.B" is the disjoint union of the graphs of A and B renumbered by an explicit '
                'permutation (heavy atoms of all parts first, then the hydrogens part by part): atoms identical, bonds identical as a multiset '
                '(listed in another order), rings in the same order — hypothesis MolIso of C04_decompose_mixture, measured on every mixture of the '
                'full tie (lib_scheme.mixture_is_union); the exceptions (bridged bicycles whose symmetrised extra ring RDKit lists last) are counted']
-TRUSTED = []
+TRUSTED = ['pipeline step: the constituents\' own correlation values at T are data of the composed model (evaluated by the real per-group '
+           'objects, handed over as exact dyadic rationals), as in C01']
 
 
 def run(ctx):
@@ -35,6 +41,8 @@ def run(ctx):
         replay(ctx, rec)
     batch = []
     full = S.FullTie(ctx, max_cases=ctx.n(160, 2000))      # per library
+    pipe = P.PipeTie(ctx, max_cases=ctx.n(45, 500))        # per library: the composed pipeline (decompose, then estimate)
+    pipe.mixtures = collections.Counter()
     for name, lib in libs_:
         kind = 'gas' if name in ('BensonGA', 'PPY') else 'surface'
         pool = list(G.MIX_GAS if kind == 'gas' else G.MIX_SURFACE)
@@ -54,12 +62,15 @@ def run(ctx):
         for a, b in pairs[:ctx.n(260, 4000)]:
             if ctx.time_left() < 60:
                 break
-            check_pair(ctx, name, lib, [a, b], [res[a], res[b]], batch, full)
+            check_pair(ctx, name, lib, [a, b], [res[a], res[b]], batch, full, pipe)
         for _ in range(ctx.n(10, 200)):
             t = [rng.choice(pool) for _ in range(3)]
-            check_pair(ctx, name, lib, t, [res[x] for x in t], batch, full)
+            check_pair(ctx, name, lib, t, [res[x] for x in t], batch, full, pipe)
         full.run()
+        variant_step(ctx, name, lib, pipe)
+        pipe.run()
     full.run()
+    pipe.run()
     # table observation behind C04_decompose_union: no pattern of any shipped scheme carries a molecule-level prefix (nor `*`)
     ctx.assumption('shipped_schemes_without_molecule_level_prefix_and_star', bool(full.flags) and all(f['nomolprefix'] and f['nostar'] for f in full.flags),
                    '%d scheme transmissions, all read by the model reader: noMolPrefix and noStar hold for each' % len(full.flags))
@@ -80,7 +91,7 @@ def run(ctx):
                 ctx.disagree('corr:c02.descriptors', where, impl['ok'], {k: float(v) for k, v in model.items()})
 
 
-def check_pair(ctx, name, lib, parts, results, batch, full=None):
+def check_pair(ctx, name, lib, parts, results, batch, full=None, pipe=None):
     mix = '.'.join(parts)
     r = S.impl_descriptors(lib, mix)
     if full is not None and not r.get('err', '').startswith('internal') and (full.max_cases is None or full.n < full.max_cases):
@@ -109,6 +120,8 @@ def check_pair(ctx, name, lib, parts, results, batch, full=None):
         ctx.count('failure_propagation')
         if 'err' not in r:
             ctx.violation('a mixture with a component that cannot be decomposed was decomposed', inp, 'PatternMatchError', r)
+        elif pipe is not None:
+            pipeline_step(ctx, name, lib, parts, True, pipe)
         return
     if 'err' in r:
         ctx.violation('a mixture of decomposable components cannot be decomposed', inp, 'sum of the components', r)
@@ -132,6 +145,8 @@ def check_pair(ctx, name, lib, parts, results, batch, full=None):
     total = {k: v for k, v in total.items()}
     if not S.same_counts(r['ok'], total):
         ctx.violation('descriptors of the mixture differ from the sum of the components\'', inp, total, r['ok'])
+    elif pipe is not None:
+        pipeline_step(ctx, name, lib, parts, sep, pipe)
     # tie + validation of the union structure RDKit gives (A-graph for mixtures)
     if len(batch) < ctx.n(400, 5000):
         mol = S.prepare(mix)
@@ -139,7 +154,59 @@ def check_pair(ctx, name, lib, parts, results, batch, full=None):
             batch.append((S.scheme_input(lib.scheme, mol), r, {'scheme': name, 'smiles': mix}))
 
 
+def pipeline_step(ctx, name, lib, parts, sep, pipe):
+    """C04 ∘ C01: the user's call chain `lib.Estimate(lib.GetDescriptors(x), 'thermochem')` on the mixture and on its components —
+    H/RT, Cp/R, S/R, G/RT at the library's temperatures are additive, failures propagate as PIPE_mixture_additive states, the
+    quadratic form gets the cross term; each molecule also goes to the composed Lean model (`pipe.estimate_batch`)."""
+    if pipe.mixtures[name] >= ctx.n(24, 500) or ctx.time_left() < 90:
+        return
+    pipe.mixtures[name] += 1
+    info, Ts, _ = pipe.open(name, lib)
+    outs = [pipe.add(name, lib, p) for p in parts]
+    mix = pipe.add(name, lib, '.'.join(parts))
+    P.mixture_oracle(ctx, name, info, parts, outs, mix, Ts, separated=sep)
+    P.sum_oracle(ctx, name, info, '.'.join(parts), mix, Ts)
+
+
+def variant_step(ctx, name, lib, pipe):
+    """The late failure stages of `Estimate` (descriptor outside the uncertainty basis → ValueError; empty common range →
+    AssertionError) are reached by no shipped library: a variant of the library built through the real constructor reaches them,
+    and the failure clause of PIPE_mixture_failure is run on it — single molecules and pairs from the molecules already tried."""
+    if ctx.time_left() < 90:
+        return
+    seed = ctx.rng.randrange(2 ** 32)
+    mols = sorted(x for (n_, x), o in pipe.memo.items() if n_ == name and 'ok' in o and '.' not in x)
+    v = P.variant_library(name, lib, seed, pipe.memo)
+    if v is None:
+        ctx.count('pipe_variant_not_built')
+        return
+    lib2, what = v
+    vname = name + '#variant'
+    variant = {'base': name, 'seed': seed, 'molecules': mols}
+    info, Ts, _ = pipe.open(vname, lib2, variant=variant)
+    ctx.count('pipe_variant_libraries')
+    pairs = list(itertools.product(mols, mols))
+    ctx.rng.shuffle(pairs)
+    # pairs whose parts carry the two descriptors with disjoint ranges / the descriptor cut from the basis first
+    def score(p):
+        ds = [set(pipe.memo[(name, x)]['counts']) for x in p]
+        dj = what['disjoint'] or [None, None]
+        return -((dj[0] in ds[0]) + (dj[1] in ds[1]) + (what['cut'] in ds[0] | ds[1]))
+    pairs.sort(key=score)
+    for a, b in pairs[:ctx.n(7, 120)]:
+        outs = [pipe.add(vname, lib2, a), pipe.add(vname, lib2, b)]
+        mix = pipe.add(vname, lib2, a + '.' + b)
+        ctx.count('pipe_variant_mixtures')
+        P.mixture_oracle(ctx, vname, info, [a, b], outs, mix, Ts, variant=variant)
+        for x, o in ((a, outs[0]), (b, outs[1]), (a + '.' + b, mix)):
+            P.variant_outcome_oracle(ctx, vname, info, x, o, what, Ts, variant)
+            P.sum_oracle(ctx, vname, info, x, o, Ts, variant=variant)
+
+
 def replay(ctx, rec):
+    r = P.replay_record(ctx, rec)
+    if r is not None:
+        return r
     inp = rec.get('input', rec)
     before = len(ctx.violations)
     lib = dict(S.load_schemes())[inp['scheme']]
@@ -152,7 +219,12 @@ LEVEL_TEXT = ('Lean 4 theorems: for the end-to-end model decompose and all well-
               '(C04_decompose_union, C04_decompose_mixture) — through: every pattern the reader returns is connected (C04_load_connected), an embedding of a '
               'connected pattern lies in one component (C04_embeds_union), the Benson perception works per component (C04_aromatize_union), and additivity of the '
               'decomposition above the matcher (C04_descriptors_union; chain-free remaps; descriptor names separate from group names, checked per case). '
-              'The implementation is compared with itself on A.B vs A and B (relational oracle) and with the end-to-end model on the mixture\'s graph.')
+              'The implementation is compared with itself on A.B vs A and B (relational oracle) and with the end-to-end model on the mixture\'s graph. '
+              'Composition (Props/Pipeline.lean): for the composed model pipeline = estimate ∘ decompose, H/RT, Cp/R, S/R (with and without elemental '
+              'reference) and, in every unit, H, G, S, Cp of A ⊔ B are the sums of the components\' at every temperature (PIPE_mixture_additive, PIPE_dimensional); '
+              'the stage at which the pipeline of A ⊔ B stops is a fixed table of the stages of A and B (PIPE_mixture_failure); the validity range is the '
+              'intersection; x\'Mx gets the cross term 2 x_A\'M x_B (PIPE_mixture_quadratic_symmetric; additivity refuted). Tie: driver op pipe.estimate_batch '
+              'on the raw graphs vs the real call chain; oracles: additivity, failure propagation, range, cross term, count-weighted sum.')
 LEVEL_NOTE = ('Trusted: Lean kernel, standard axioms, RDKit\'s treatment of dot-disconnected SMILES (A-graph for mixtures: the mixture graph is the renumbered '
               'union of the component graphs — measured on every compared mixture). Explicit hypothesis: no molecule-level prefix in any pattern (holds for '
               'every pattern of the nine shipped schemes: table observation re-made each run from the live schemes through the model reader); no `*`, cap inactive.')
